@@ -759,6 +759,17 @@ func (w *world) add(v reflect.Value) {
 	}
 }
 
+func (w *world) has(v reflect.Value) bool {
+	k := typeKey(v.Type())
+	d := dumpVals([]reflect.Value{v})
+	for _, e := range w.pool {
+		if e.key == k && dumpVals([]reflect.Value{e.v}) == d {
+			return true
+		}
+	}
+	return false
+}
+
 func (w *world) poolDump() []string {
 	out := make([]string, len(w.pool))
 	for i, e := range w.pool {
@@ -809,6 +820,7 @@ type stepOut struct {
 	ok      bool
 	rvals   []reflect.Value
 	written [][]byte // what the call wrote to fake connections held by its arguments
+	fresh   []reflect.Value // the arguments of the call: pooled too, so that later calls meet the same names and keys again
 }
 
 var active, focusActive []*callable
@@ -918,7 +930,30 @@ func (w *world) step(seq int64, stepNo int, r *rand.Rand) (c *callable, o stepOu
 			}
 			args[i] = a
 		}
+		// two byte-slice arguments are sometimes two views of one buffer (in-place and overlapping use)
+		if r.Intn(100) < 12 {
+			var bi []int
+			for i, a := range args {
+				if a.Kind() == reflect.Slice && a.Type() == bytesType {
+					bi = append(bi, i)
+				}
+			}
+			if len(bi) >= 2 {
+				a, b := bi[0], bi[1]
+				na, nb := args[a].Len(), args[b].Len()
+				buf := make([]byte, na+nb+8)
+				copy(buf, args[a].Bytes())
+				copy(buf[na:], args[b].Bytes())
+				oa := r.Intn(8)
+				ob := r.Intn(na + 8)
+				if oa+na <= len(buf) && ob+nb <= len(buf) {
+					args[a] = reflect.ValueOf(buf[oa : oa+na : oa+na])
+					args[b] = reflect.ValueOf(buf[ob : ob+nb : ob+nb])
+				}
+			}
+		}
 		o.desc = c.Name + "(" + clip(dumpVals(args)) + ")"
+		o.fresh = args
 		noteInflight(seq, stepNo, w.idx, c.Name)
 		res, panicked := safeCall(fn, args)
 		callStarted.Store(0)
@@ -1114,6 +1149,18 @@ func runSeq(seed, seq int64, maxSteps int) (*difference, bool) {
 			}
 			for _, b := range outs[i].written {
 				w.add(reflect.ValueOf(b))
+			}
+			for j, a := range outs[i].fresh {
+				// strings, byte strings and named values (addresses, types, codes) that were passed in
+				if j == 0 && a.Kind() == reflect.Ptr {
+					continue // receivers are in the pool already
+				}
+				switch a.Kind() {
+				case reflect.String, reflect.Slice:
+					if a.Len() > 0 && a.Len() <= 64 && !w.has(a) {
+						w.add(a)
+					}
+				}
 			}
 			if len(w.pool) > 40 {
 				w.pool = w.pool[len(w.pool)-40:]
